@@ -28,3 +28,7 @@ Proof. exact caller_wake_answers. Qed.
 (* the cap itself comes from the source *)
 Theorem C07_send_limit_is_sources : SEND_LIMIT = FSM_SEND_TIMEOUT_LIMIT_us.
 Proof. reflexivity. Qed.
+
+(* ... and is the 20 s the property states (the model's clock counts microseconds) *)
+Theorem C07_cap_is_20_seconds : SEND_LIMIT = 20 * 1000000.
+Proof. reflexivity. Qed.
